@@ -51,6 +51,46 @@ def run_dyadic(c):
     return {"rows": [d["a"], d["b"]], "score": float(score), "n": len(alpha), "alphabet": alpha}
 
 
+def middle_row(c, s1, s2, S):
+    """the divide step of PairEmissionProbs.hirschberg on the real objects: forward and backward scores of the
+    middle row from the implementation's own scores_at_rows (same T2 edits as _half_row_scores), summed"""
+    import numpy
+    from cogent3.align import indel_model, pairwise
+    from cogent3.evolve.likelihood_tree import make_likelihood_tree_leaf
+
+    alpha = s1.moltype.alphabet
+    Sm = numpy.zeros([len(alpha), len(alpha)], float)
+    for i, m1 in enumerate(alpha):
+        for j, m2 in enumerate(alpha):
+            Sm[i, j] = S[m1, m2]
+    psub = numpy.exp(Sm)
+    mprobs = numpy.ones(len(psub), float) / len(psub)
+    TM = indel_model.classic_gap_scores(c["d"], c["e"])
+    leaves = [make_likelihood_tree_leaf(seq, seq.moltype.alphabet, seq.name) for seq in (s1, s2)]
+    p1, p2 = [pairwise.AlignableSeq(leaf) for leaf in leaves]
+    EP = pairwise.Pair(p1, p2).make_simple_emission_probs(mprobs, [psub])
+    hmm = EP.make_pair_HMM(TM)
+    (states, T) = hmm._transition_matrix
+    dp_options = pairwise.DPFlags(viterbi=True, local=False)
+    links = EP.pair.children[0].midlinks()
+
+    def half(backward):
+        T2 = T.copy()
+        if backward:
+            T2[0, 1:-1] = 1.0
+        else:
+            T2[1:-1:, -1] = 1.0
+        return EP.scores_at_rows((states, T2), dp_options, last_row=[link[backward] for link in links],
+                                 backward=bool(backward))
+
+    with numpy.errstate(all="ignore"):
+        mid = half(0) + half(1)
+    out = []
+    for row in mid[0]:
+        out.append([None if (v == -numpy.inf or numpy.isnan(v)) else float(v) for v in row])
+    return {"k": int(links[0][0]), "rows": out}
+
+
 def run_pair(c):
     if c.get("dyadic"):
         return run_dyadic(c)
@@ -116,6 +156,8 @@ def run_pair(c):
         # the same input and configuration through the full dynamic programme (default threshold)
         rows2, score2 = call()
         out["full"] = {"rows": rows2, "score": score2}
+    if c.get("middle"):
+        out["middle"] = middle_row(c, s1, s2, S)
     return out
 
 
